@@ -30,6 +30,8 @@ pub enum Ty {
     SetI,
     /// `()`
     Unit,
+    /// `gd::Sh`: the support library's `#[derive(DemuxEnum)]` enum `A(i64) | B(i64, i64) | C { k, v }`
+    Sh,
 }
 
 impl Ty {
@@ -73,6 +75,7 @@ impl Ty {
             ),
             Ty::MaxI => "dfir_rs::lattices::Max<i64>".into(),
             Ty::SetI => "dfir_rs::lattices::set_union::SetUnionHashSet<i64>".into(),
+            Ty::Sh => "gd::Sh".into(),
         }
     }
     /// Only made of integers and tuples (totally ordered, hashable, cloneable, comparable the same
@@ -333,6 +336,8 @@ pub enum MapFn {
     FromMax,
     /// I -> SetUnionHashSet<i64> (singleton set)
     ToSet,
+    /// I -> gd::Sh: `x mod 3`: 0 => A(x), 1 => B(x, x + 1), 2 => C { k: x, v: x * 2 }
+    ToShape,
 }
 
 #[derive(Clone, Debug, PartialEq, Eq, Hash, Serialize, Deserialize)]
@@ -529,6 +534,12 @@ pub enum Op {
     LatticeReduce { pers: Vec<Pers> },
     /// `state::<'p, Max<i64>>()`: outputs [items], [state]
     State { pers: Vec<Pers> },
+    /// `state_by::<'p, Max<i64>>(|x: i64| Max::new(x), Default::default)`: i64 items, outputs [items], [state]
+    StateBy { pers: Vec<Pers> },
+    /// `demux_enum::<gd::Sh>()`: outputs [A] (i64,), [B] (i64, i64), [C] (i64, i64)
+    DemuxEnum,
+    /// `initialize()`: a single `()` in the first tick
+    Initialize,
     // ---- sinks
     ForEach { sink: usize },
     Null,
@@ -625,6 +636,9 @@ impl Op {
             Op::LatticeFold { .. } => "lattice_fold",
             Op::LatticeReduce { .. } => "lattice_reduce",
             Op::State { .. } => "state",
+            Op::StateBy { .. } => "state_by",
+            Op::DemuxEnum => "demux_enum",
+            Op::Initialize => "initialize",
             Op::ForEach { .. } => "for_each",
             Op::Null => "null",
         }
@@ -649,7 +663,8 @@ impl Op {
             | Op::Unique { pers }
             | Op::LatticeFold { pers }
             | Op::LatticeReduce { pers }
-            | Op::State { pers } => Some(pers),
+            | Op::State { pers }
+            | Op::StateBy { pers } => Some(pers),
             _ => None,
         }
     }
@@ -684,7 +699,7 @@ impl Op {
     }
     pub fn n_inputs(&self) -> usize {
         match self {
-            Op::SrcStream { .. } | Op::SrcIter { .. } => 0,
+            Op::SrcStream { .. } | Op::SrcIter { .. } | Op::Initialize => 0,
             Op::Union { n } => *n,
             Op::Chain
             | Op::ChainFirstN { .. }
@@ -723,7 +738,8 @@ impl Op {
     pub fn out_port(&self, i: usize) -> Option<String> {
         match self {
             Op::Unzip | Op::Partition { .. } => Some(format!("{i}")),
-            Op::State { .. } => Some(if i == 0 { "items" } else { "state" }.to_string()),
+            Op::State { .. } | Op::StateBy { .. } => Some(if i == 0 { "items" } else { "state" }.to_string()),
+            Op::DemuxEnum => Some(["A", "B", "C"][i].to_string()),
             _ => None,
         }
     }
@@ -768,6 +784,7 @@ pub fn out_types(op: &Op, ins: &[Ty], prog_sources: &[Ty]) -> Result<Vec<Ty>, St
                 MapFn::ToMax if *t == Ty::I => Ty::MaxI,
                 MapFn::FromMax if *t == Ty::MaxI => i(),
                 MapFn::ToSet if *t == Ty::I => Ty::SetI,
+                MapFn::ToShape if *t == Ty::I => Ty::Sh,
                 _ => return bad("map fn does not apply to input type"),
             };
             Ok(vec![o])
@@ -1074,6 +1091,29 @@ pub fn out_types(op: &Op, ins: &[Ty], prog_sources: &[Ty]) -> Result<Vec<Ty>, St
                 _ => bad("input not Max<i64>"),
             }
         }
+        Op::StateBy { pers } => {
+            need(1)?;
+            if pers.len() > 1 {
+                return bad("too many persistence args");
+            }
+            if ins[0] == Ty::I {
+                Ok(vec![Ty::I, Ty::MaxI])
+            } else {
+                bad("items must be i64")
+            }
+        }
+        Op::DemuxEnum => {
+            need(1)?;
+            if ins[0] == Ty::Sh {
+                Ok(vec![Ty::T(vec![Ty::I]), Ty::p(), Ty::p()])
+            } else {
+                bad("input must be gd::Sh")
+            }
+        }
+        Op::Initialize => {
+            need(0)?;
+            Ok(vec![Ty::Unit])
+        }
         Op::ForEach { .. } | Op::Null => {
             need(1)?;
             Ok(vec![])
@@ -1090,6 +1130,7 @@ fn norm_ok(t: &Ty) -> bool {
         Ty::Eob(a, b) => a.is_plain() && b.is_plain(),
         Ty::MaxI => true,
         Ty::SetI => true,
+        Ty::Sh => true,
     }
 }
 
